@@ -243,6 +243,31 @@ def main(run):
             if r:
                 sweep_fails.append(r)
         run.nontriv(("very-long", k, n))
+    # ---- admission RATE at high repetition counts: tiny reservoirs on short streams cost a few hundred nanoseconds per update, so
+    # hundreds of thousands (thorough: millions) of independent executions fit; the item in slot 0 stems from the last `last`
+    # arrivals with probability exactly last / n.  A relative bias of the admission rate of ~2.5 % (thorough ~0.8 %) is visible here.
+    rate_cfg = [(1, 14, 4), (1, 24, 6), (2, 30, 8), (1, 40, 10)]
+    rct = CellTests(len(rate_cfg), eps=EPS / (len(GRID) + 4))
+    for jj, (k, n, last) in enumerate(rate_cfg):
+        if jj % nsh != sh % len(rate_cfg) or sh >= len(rate_cfg):
+            continue
+        reps_ = (300000 if not thorough else 4000000) // (1 if n <= 14 else 2 if n <= 30 else 3)
+        random.seed(run.shard_seed * 104729 + jj)
+        xs_ = [{"t": i} for i in range(n)]
+        hits = 0
+        for r_ in range(reps_):
+            st = UniformReservoirStorage(size=k, store_targets=False)
+            upd = st.update
+            for x_ in xs_:
+                upd(x_)
+            hits += st.get_data()[0][0]["t"] >= n - last
+        run.ok(reps_, kind="admission-rate")
+        r = rct.test(hits, reps_, last / n, f"k={k} n={n}: the item in slot 0 stems from the last {last} arrivals")
+        if r:
+            sweep_fails.append(r)
+        run.nontriv(("admission-rate", k, n))
+    mdd = max(mdd, rct.max_mdd) if rct.done else mdd
+    run.notes["admission_rate_min_detectable_deviation"] = rct.max_mdd
     # ---- exact law of the overwritten slot (float draws pinned, integer / bit draws enumerated with exact weights): 1/k each,
     # compared with == ; a slot bias of any size in the index draw is a deterministic finding here
     from fractions import Fraction
